@@ -555,24 +555,24 @@ for _pid, _spec in PROPS.items():
 
 _ADD = {
     "C01": ([], " ENCKEEP (part of LINCODEC): at every successful return of an encoder that was given output space and input (or asked to terminate) the finished part `done` and the encoded amount `done + scratch` are not below their values at entry, termination gives done' >= done + scratch, and the open block stays below a full code block (assumed at entry, shown at exit); exits behind the block loop where the relation is not shown are listed as not decided."),
-    "C04": ([{"run": rules_cow.run_stalebuf, "floor": 25, "scope": "anchor-dirs"}, {"run": rules_cow.run_cxxcow, "floor": 3, "ctx": {"cxx_files": ["mpt++/array.cpp"]}}, {"run": rules_cow.run_detachfail, "floor": 2}],
+    "C04": ([{"run": rules_cow.run_stalebuf, "floor": 25, "scope": "anchor-dirs"}, {"run": rules_cow.run_cxxcow, "floor": 2, "ctx": {"cxx_files": ["mpt++/array.cpp"]}}, {"run": rules_cow.run_detachfail, "floor": 1}],
             " CXXCOW: typestate with trace partitioning in mpt++/array.cpp: a content object obtained from a handle is changed in place (set_length, append, insert, skip, trim) only where its shared() test answered false on that path or it was created here. DETACHFAIL: a bool function whose `c->detach(size)` did not deliver a private copy does not answer true. STALEBUF: forward may-analysis per function: a local computed from `A->_buf` is not read, dereferenced or returned after a call that may replace A's buffer (functions that store to their array parameter's `_buf`, transitively) unless it was assigned again."),
-    "C05": ([{"run": rules_traits.run_initwrites, "floor": 15}, {"run": rules_traits.run_finibound, "floor": 8}, {"run": rules_traits.run_finifirst, "floor": 8}, {"run": rules_ident.run_identoverlay, "floor": 15}],
+    "C05": ([{"run": rules_traits.run_initwrites, "floor": 12}, {"run": rules_traits.run_finibound, "floor": 5}, {"run": rules_traits.run_finifirst, "floor": 5}, {"run": rules_ident.run_identoverlay, "floor": 15}],
             " FINIFIRST: in a function with a finalizer loop the used length is lowered only behind that loop (or under a growth guard / a test that there is no finalizer). IDENTOVERLAY (see C16) for the identifier element type: its finalizer reads `_base` only under `_len > _max`. INITWRITES: every `init` operation named by a type_traits table has written through its element pointer on each path to a return that can be non-negative. FINIBOUND: no store to `B->_used` reaches the read of `B->_used` that bounds a finalizer loop over B."),
-    "C06": ([{"run": rules_table.run_sparsezero, "floor": 5, "use_anchor_files": True}],
+    "C06": ([{"run": rules_table.run_sparsezero, "floor": 3, "use_anchor_files": True}],
             " SPARSEZERO: tables addressed by computed index (file-level pointers) get their memory from calloc() or are cleared with memset in the allocating function."),
     "C10": ([{"run": rules_types.run_signextend, "floor": 3, "use_anchor_files": True}],
             " SIGNEXTEND: in the path files no plain `char` loaded from memory is implicitly converted to an unsigned type of 4 bytes or more where it is used as a number (assignment, arithmetic, comparison, index): length bytes are read through `unsigned char`."),
     "C12": ([{"run": rules_effect.run_objects, "floor": 8, "ctx": {"records": ["mpt_reply_data", "reply_data", "mpt_reply_context", "reply_context"], "min_functions": 5}, "use_anchor_files": True},
-             {"run": rules_reply.run_flextail, "floor": 2, "use_anchor_files": True}],
+             {"run": rules_reply.run_flextail, "floor": 1, "use_anchor_files": True}],
             " ERRFX on every function of the anchor files that takes a reply_data / reply_context: no store to it on a path that refuses. FLEXTAIL: where the tail of an object that ends in the 4-byte id array is computed as capacity minus a sizeof, the sizeof is not larger than that array."),
-    "C15": ([{"run": rules_ref.run_raisetest, "floor": 40}, {"run": rules_traits.run_finibound, "floor": 8}, {"run": rules_ref.run_addreffail, "floor": 10}, {"run": rules_traits.run_finimatch, "floor": 1}, {"run": rules_traits.run_finifirst, "floor": 8}],
+    "C15": ([{"run": rules_ref.run_raisetest, "floor": 40}, {"run": rules_traits.run_finibound, "floor": 5}, {"run": rules_ref.run_addreffail, "floor": 10}, {"run": rules_traits.run_finimatch, "floor": 1}, {"run": rules_traits.run_finifirst, "floor": 5}],
             " ADDREFFAIL: from the edge on which an addref slot call answered non-zero every path to a refusal passes unref of that object, a store of it into memory or a call that is handed it. FINIMATCH / FINIFIRST (see C05): generic assignment into typed slots releases exactly the old referents of the rewritten range. RAISETEST: the answer of every addref slot call / mpt_refcount_raise (new count, 0 on failure) is decided by a zero test on the full-width value: no `< 0` test, no copy into a narrower variable. FINIBOUND as for C05."),
-    "C16": ([{"run": rules_ident.run_initlive, "floor": 6}],
+    "C16": ([{"run": rules_ident.run_initlive, "floor": 4}],
             " INITLIVE: mpt_identifier_init() is applied only in constructors, in type_traits init operations, to locals, or to memory allocated by the caller: never to `*this` of another member function or to an object handed in."),
     "C17": ([{"run": rules_path.run_fraglocate, "floor": 1, "use_anchor_files": True}, {"run": rules_path.run_fragadopt, "floor": 3, "use_anchor_files": True}],
             " FRAGLOCATE: a loop that reduces an offset by fragment lengths to find the fragment holding it runs while offset >= length. FRAGADOPT: where a continuation fragment becomes the base part, `cont` is stepped past it on every path to the exit."),
-    "C19": ([{"run": rules_iter.run_derivedfield, "floor": 2, "use_anchor_files": True}, {"run": rules_iter.run_parkrestore, "floor": 6, "use_anchor_files": True}, {"run": rules_table.run_typemap, "floor": 120, "scope": "anchors"}],
+    "C19": ([{"run": rules_iter.run_derivedfield, "floor": 1, "use_anchor_files": True}, {"run": rules_iter.run_parkrestore, "floor": 6, "use_anchor_files": True}, {"run": rules_table.run_typemap, "floor": 120, "scope": "anchors"}],
             " DERIVEDFIELD: a pointer member that is computed from an integer member of the same object and read by a function that does not compute it is stored again (or recomputed by a callee handed the object) in every function that stores the integer member. PARKRESTORE: typestate with trace partitioning over the parked-byte marker of the text iterator: the marker is dropped only after the parked byte was put back or the marker was tested null, and no callee is handed the text through the marker while a byte is parked. TYPEMAP (see C06) for the id -> size switch of mpt_iterator_consume."),
     "C03": ([{"run": rules_lin.run_linbounds, "floor": 95, "ctx": {"files_of": "C13"}}],
             " LINBOUNDS over the queue files (see C13): the decoders' queue glue (mpt_queue_recv / mpt_queue_shift) relies on mpt_qpre, mpt_queue_crop and mpt_queue_data keeping the queue invariant and changing the stored length by exactly the requested amount (LENSPEC)."),
